@@ -424,6 +424,9 @@ def guard_blocks(body, base, what):
             if len(st.branches) != 1:
                 lost("%s: mode guard `%s` has an else branch" % (what, cond))
             if tail:
+                inner = statements(st.branches[0][1], st.branches[0][2])
+                if inner and all(is_unknown_loop(x) for x in inner):
+                    tail.append(st); continue      # `if (<mode>) { for (… : extensions()) … }` after the tail: handled by the caller
                 lost("%s: mode guard `%s` follows unguarded statements" % (what, cond))
             if cond == "sceMode & QXmpp::ScePublic":
                 blocks.append(("pub", st.branches[0][1], st.branches[0][2]))
@@ -616,6 +619,42 @@ def accepts(rec, tag, ns):
     return False
 
 
+
+ALL_MODES = ("all", "pub", "sens")
+UNKNOWN_LOOP_RE = re.compile(r":\s*(?:std::as_const\()?(?:d->extensions|extensions\(\))\)?\s*$")
+
+
+def modes_of_cond(cond, what):
+    """a pure mode condition -> the set of modes in which it holds"""
+    c = re.sub(r"\s+", " ", cond.strip())
+    m = re.fullmatch(r"sceMode & QXmpp::(ScePublic|SceSensitive)", c)
+    if m:
+        return {"all", "pub" if m.group(1) == "ScePublic" else "sens"}
+    m = re.fullmatch(r"sceMode == QXmpp::(SceAll|ScePublic|SceSensitive)", c)
+    if m:
+        return {{"SceAll": "all", "ScePublic": "pub", "SceSensitive": "sens"}[m.group(1)]}
+    lost("%s: `%s` is not a pure mode condition" % (what, c))
+
+
+def is_unknown_loop(st):
+    return st.kind == "for" and UNKNOWN_LOOP_RE.search(st.header) is not None and re.search(r"\.toXml\(\s*(?:writer|xmlWriter)\s*\)", st.body) is not None
+
+
+def take_unknown_loops(sts, outer_modes, what):
+    """remove the loop(s) writing the unknown extensions (bare, or wrapped in a pure mode `if`) from a statement list;
+    returns (remaining statements, [set of modes in which each loop runs])"""
+    rest, found = [], []
+    for st in sts:
+        if is_unknown_loop(st):
+            found.append(set(outer_modes)); continue
+        if st.kind == "if" and len(st.branches) == 1 and "sceMode" in (st.branches[0][0] or ""):
+            inner = statements(st.branches[0][1], st.branches[0][2])
+            if inner and all(is_unknown_loop(x) for x in inner):
+                ms = modes_of_cond(st.branches[0][0], what) & set(outer_modes)
+                found += [set(ms) for _ in inner]; continue
+        rest.append(st)
+    return rest, found
+
 # ----------------------------------------------------------------------------- main
 def lean_str(s):
     return '"' + s.replace("\\", "\\\\").replace('"', '\\"') + '"'
@@ -662,8 +701,13 @@ def translate():
     body, off = function_body(msg, r"void\s+QXmppMessage::serializeExtensions\s*\(", "QXmppMessage::serializeExtensions")
     blocks, tail = guard_blocks(body, off, "serializeExtensions")
     writers = []
+    ser_unknown = []      # mode sets of loops over the unknown extensions inside serializeExtensions
     for g, text, boff in blocks:
-        writers += writers_of_block(g, statements(text, boff), C, omemo_ranges, "serializeExtensions[%s]" % g)
+        sts, found = take_unknown_loops(statements(text, boff), {"pub": ("all", "pub"), "sens": ("all", "sens")}[g], "serializeExtensions[%s]" % g)
+        ser_unknown += found
+        writers += writers_of_block(g, sts, C, omemo_ranges, "serializeExtensions[%s]" % g)
+    tail, found = take_unknown_loops(tail, ALL_MODES, "serializeExtensions[tail]")
+    ser_unknown += found
     tw = writers_of_block("both", tail, C, omemo_ranges, "serializeExtensions[tail]")
     if not tw:
         lost("serializeExtensions: unguarded tail writes nothing (fallback markers expected)")
@@ -695,6 +739,9 @@ def translate():
     ebody, eoff = function_body(st_src, r"void\s+QXmppStanza::extensionsToXml\s*\(", "QXmppStanza::extensionsToXml")
     ests = statements(ebody, eoff)
     wrappers, unknown_written = [], None
+    ests, tail_unknown = take_unknown_loops(ests, ALL_MODES, "extensionsToXml")
+    if len(tail_unknown) > 1:
+        lost("extensionsToXml: unknown extensions written more than once")
     for st in ests:
         if st.kind == "if":
             cond = re.sub(r"\s+", " ", st.branches[0][0])
@@ -718,12 +765,30 @@ def translate():
                 lost("extensionsToXml: guarded block does not write exactly one element")
             wrappers.append(dict(members=[mem[0]], primary=mem[0], tags=ems[0]["tags"], ns=ems[0]["ns"], guard=eff, declared=declared,
                                  multi=False, unless=[], compiled=True, nsib=1, wrapper=True, off=10 ** 9 + st.off))
-        elif st.kind == "for" and re.search(r"d->extensions\b", st.header):
-            unknown_written = "both"
         else:
             lost("extensionsToXml: unexpected statement: " + re.sub(r"\s+", " ", st.text)[:80])
-    if unknown_written is None:
-        lost("extensionsToXml: loop over d->extensions (unknown extensions) not found")
+    # where the unknown extensions (QXmppStanza::extensions()) are written: per toXml mode and in the envelope content
+    tail_modes = set()
+    if tail_unknown:
+        tail_modes = set(tail_unknown[0]) if passes_mode else (set(ALL_MODES) if {"SceAll": "all", "ScePublic": "pub", "SceSensitive": "sens"}[default_mode] in tail_unknown[0] else set())
+    if len(ser_unknown) > 1:
+        lost("serializeExtensions: unknown extensions written more than once")
+    ser_modes = set(ser_unknown[0]) if ser_unknown else set()
+    if tail_modes & ser_modes:
+        lost("unknown extensions written twice by toXml in mode(s) %s" % sorted(tail_modes & ser_modes))
+    toxml_modes, in_content = tail_modes | ser_modes, "sens" in ser_modes
+    if not toxml_modes:
+        lost("no writer of the unknown extensions (QXmppStanza::extensions()) found in toXml / serializeExtensions")
+    key = (tuple(m for m in ALL_MODES if m in toxml_modes), in_content)
+    placement = {(("all", "pub", "sens"), False): ("both", True),      # toXml writes them in every mode, the envelope never has them
+                 (("all", "sens"), True): ("sens", False),             # sensitive, also through serializeExtensions
+                 (("all", "sens"), False): ("sens", True),             # sensitive for toXml, but missing from the envelope content
+                 (("all", "pub"), False): ("pub", True)}.get(key)
+    if placement is None:
+        lost("unknown extensions: unsupported combination toXml modes %s, in envelope content: %s" % key)
+    unknown_written = placement[0]
+    ext_row = dict(name="extensions", primary="extensions", members=["extensions"], tags=[], ns="", guard=placement[0], wrapper=placement[1],
+                   multi=True, unless=[], compiled=True, off=3 * 10 ** 9, catchAll=True)
     if not wrappers:
         lost("extensionsToXml: extended addresses block not found")
 
@@ -742,6 +807,9 @@ def translate():
     body, _ = function_body(msg, r"void\s+QXmppMessage::parseExtensions\s*\(", "QXmppMessage::parseExtensions")
     flat = re.sub(r"\s+", " ", body)
     skip = re.search(r'if \(!checkElement\(childElement, u"(\w+)", (ns_\w+)\) && childElement\.tagName\(\) != u"error"\)', flat)
+    if not re.search(r"if \(!parseExtension\(childElement, sceMode\)\) \{ unknownExtensions << QXmppElement\(childElement\); \}", flat) \
+            or not re.search(r"setExtensions\(unknownExtensions\);", flat):
+        lost("parseExtensions: collection of unrecognised children into setExtensions(unknownExtensions) not found")
     if not skip or "sceMode" in flat.replace("parseExtension(childElement, sceMode)", "").replace("const QXmpp::SceMode sceMode", ""):
         lost("parseExtensions: skip of <addresses/> and <error/> (handled by QXmppStanza::parse) not found, or sceMode used unexpectedly")
     pbody, _ = function_body(msg, r"void\s+QXmppMessage::parse\s*\(\s*const\s+QDomElement\s*&\s*element\s*,\s*QXmpp::SceMode\s+sceMode\s*\)",
@@ -791,7 +859,10 @@ def translate():
         extra_rows.append(dict(name=nm, tags=[], ns="", guard="none", leaf=l, multi=l["multi"], unless=[], compiled=l["compiled"],
                                wrapper=l.get("wrapper", False), members=l["members"], primary=nm, off=2 * 10 ** 9))
         l["rows"] = [nm]
-    rows = all_w + extra_rows
+    ext_row["leaf"] = dict(rec=None, guard="both", multi=True, rows=["extensions"])    # collected by parseExtensions in every mode
+    if "extensions" in names:
+        lost("a known row is already called `extensions`")
+    rows = all_w + extra_rows + [ext_row]
     # unless: member names -> row names
     by_primary = {}
     for w in rows:
@@ -838,6 +909,16 @@ def translate():
         lost("QXmppOmemoManager_p.cpp: serializeExtensions(&writer, <mode>, ns_client) / parseExtensions(sceContent, <mode>) not found")
     env_mode, recv_content = MODE[em[0]], MODE[rm[0]]
 
+    # ---- encrypted IQs (OMEMO): the outer <iq/> is built from scratch, the payload (or the error) goes into the envelope content
+    omgr = src_of(os.path.join(REPO, "src", "omemo", "QXmppOmemoManager.cpp"))
+    ibody, _ = function_body(omgr, r"QXmppTask<QXmppE2eeExtension::IqEncryptResult>\s+Manager::encryptIq\s*\(", "QXmppOmemoManager::encryptIq")
+    if not re.search(r"auto\s+omemoIq\s*=\s*std::make_unique<QXmppOmemoIq>\(\)\s*;", ibody) or not re.search(r"interface\.finish\(std::move\(omemoIq\)\)", ibody):
+        lost("QXmppOmemoManager::encryptIq: outer IQ is not a fresh QXmppOmemoIq handed to the result")
+    iq_setters = re.findall(r"omemoIq->(\w+)\(", ibody)
+    ebody2, _ = function_body(om, r"QByteArray\s+ManagerPrivate::createSceEnvelope\s*\(", "ManagerPrivate::createSceEnvelope")
+    eflat = re.sub(r"\s+", " ", ebody2)
+    iq_in_env = re.search(r"if \(auto err = stanza\.errorOptional\(\)\) \{ err->toXml\(&writer\); \} else \{ stanza\.toXmlElementFromChild\(&writer\); \}", eflat) is not None
+
     # ---- emit Lean
     L = []
     L.append("/- GENERATED by translators/sce_table.py from src/base/QXmppMessage.cpp, QXmppStanza.{h,cpp}, QXmppConstants_p.h,")
@@ -848,7 +929,7 @@ def translate():
     L.append("")
     for w in rows:
         lf = w["leaf"]
-        nss = ["", C.ns["ns_client"]] if w["ns"] == "BASE" else [w["ns"]]
+        nss = [] if w.get("catchAll") else ["", C.ns["ns_client"]] if w["ns"] == "BASE" else [w["ns"]]
         L.append("/-- writer: %s block%s; recogniser: %s -/" % (
             w["guard"], " (toXml wrapper, declared %s, mode %s)" % (w.get("declared"), "forwarded" if passes_mode else "not forwarded, default " + default_mode) if w["wrapper"] else "",
             ("%s block" % lf["guard"]) if lf else "none"))
@@ -856,9 +937,9 @@ def translate():
         L.append("  { name := %s, tags := %s, nss := %s," % (lean_str(w["name"]), lean_list(w["tags"]), lean_list(nss)))
         L.append("    recog := %s," % lean_recog(lf["rec"] if lf else None))
         L.append("    parseGuard := .%s, writeGuard := .%s," % (lf["guard"] if lf else "none", w["guard"]))
-        L.append("    wrapper := %s, multi := %s, suppressedBy := %s, compiled := %s }" % (
+        L.append("    wrapper := %s, multi := %s, suppressedBy := %s, compiled := %s, catchAll := %s }" % (
             "true" if w["wrapper"] else "false", "true" if (w["multi"] or (lf and lf["multi"])) else "false",
-            lean_list(w["unless_rows"]), "true" if w["compiled"] else "false"))
+            lean_list(w["unless_rows"]), "true" if w["compiled"] else "false", "true" if w.get("catchAll") else "false"))
         L.append("")
     L.append("/-- rows in the order `QXmppMessage::toXml` emits them -/")
     L.append("def rows : List Row :=\n  [" + ",\n   ".join(ident(w["name"]) for w in rows) + "]")
@@ -882,6 +963,10 @@ def translate():
     L.append("def receiveOuterMode : Mode := .%s" % recv_outer)
     L.append("/-- OMEMO `decryptMessage`: the decrypted content is read by `parseExtensions(sceContent, <this mode>)` -/")
     L.append("def receiveContentMode : Mode := .%s" % recv_content)
+    L.append("/-- OMEMO `encryptIq`: setters called on the fresh outer `QXmppOmemoIq` (everything else of the IQ is only in the envelope) -/")
+    L.append("def omemoIqOuterSetters : List String := %s" % lean_list(iq_setters))
+    L.append("/-- OMEMO `createSceEnvelope` for an IQ: `<content/>` = the error if there is one, else `toXmlElementFromChild` (the payload) -/")
+    L.append("def iqPayloadInEnvelope : Bool := %s" % ("true" if iq_in_env else "false"))
     L.append("")
     L.append("end Qx.Generated.SceTable")
     return "\n".join(L) + "\n", rows
